@@ -265,3 +265,155 @@ def iteration_outcomes(cfg: CFG, loop_stmt, decide, label, into_handlers: bool =
                 labs.add("<return>" if tail == "return_exit" else "<raise>")
         out.add(frozenset(labs))
     return out
+
+
+def eager_env(trace, caught: str = "CAUGHT") -> dict:
+    """name -> expression it holds at the end of the path, every right-hand side resolved with the values the names had
+    *when it was evaluated* (so `e = Wrap(e)` resolves to `Wrap(<previous e>)`).  A handler's variable is the name `caught`."""
+    import copy
+
+    sym: dict = {}
+
+    def sub(e):
+        class T(ast.NodeTransformer):
+            def visit_Name(self, node):
+                if isinstance(node.ctx, ast.Load) and node.id in sym:
+                    return copy.deepcopy(sym[node.id])
+                return node
+
+            def visit_Lambda(self, node):
+                return node
+
+        return T().visit(copy.deepcopy(e))
+
+    nodes_ = trace.nodes
+    tests = []
+    sym["__tests__"] = tests
+    for i_, n in enumerate(nodes_):
+        if n.kind == "test" and i_ + 1 < len(nodes_):
+            lab = [l for m, l in trace.cfg.succ[n.id] if m == nodes_[i_ + 1].id]
+            tests.append((unparse(sub(n.ast)), lab[0] if lab else "?"))
+            continue
+        if i_ + 1 < len(nodes_) and nodes_[i_ + 1].kind == "handler" and n.kind == "stmt":
+            continue  # this statement raised: its assignment did not happen
+        if n.kind == "handler" and n.ast.name:
+            sym[n.ast.name] = ast.Name(id=caught, ctx=ast.Load())
+        elif n.kind == "for":
+            for t in ast.walk(n.ast.target):
+                if isinstance(t, ast.Name):
+                    sym.pop(t.id, None)
+        elif n.kind == "stmt" and isinstance(n.ast, (ast.Assign, ast.AnnAssign)) and getattr(n.ast, "value", None) is not None:
+            targets = n.ast.targets if isinstance(n.ast, ast.Assign) else [n.ast.target]
+            v = sub(n.ast.value)
+            for t in targets:
+                if isinstance(t, (ast.Attribute, ast.Subscript)):
+                    sym["@" + unparse(t)] = v  # queried by rules, never substituted
+                if isinstance(t, ast.Name):
+                    sym[t.id] = v
+                elif isinstance(t, (ast.Tuple, ast.List)):
+                    for i, e in enumerate(t.elts):
+                        if isinstance(e, ast.Name):
+                            sym[e.id] = v.elts[i] if isinstance(v, (ast.Tuple, ast.List)) and len(v.elts) == len(t.elts) else ast.Subscript(value=v, slice=ast.Constant(value=i), ctx=ast.Load())
+        elif n.kind == "stmt" and isinstance(n.ast, ast.AugAssign) and isinstance(n.ast.target, ast.Name):
+            sym[n.ast.target.id] = ast.BinOp(left=sub(n.ast.target), op=n.ast.op, right=sub(n.ast.value))
+    sym["__sub__"] = sub
+    return sym
+
+
+def _focus_decider(fv, focus):
+    """For rules that only ask what a path stores into `focus` targets: an `if` that neither stores into one of them nor
+    tests one of them is walked one way only (the way that does not leave the function)."""
+    func = fv.func.node
+    ifs = [n for n in ast.walk(func) if isinstance(n, (ast.If, ast.While))]
+
+    def owner(test_ast):
+        for st in ifs:
+            if any(x is test_ast for x in ast.walk(st.test)):
+                return st
+        return None
+
+    def relevant(st) -> bool:
+        for x in ast.walk(st):
+            if isinstance(x, (ast.Assign, ast.AugAssign, ast.AnnAssign)):
+                tg = x.targets if isinstance(x, ast.Assign) else [x.target]
+                if any(unparse(t) in focus for t in tg):
+                    return True
+        return any(isinstance(x, (ast.Name, ast.Attribute)) and unparse(x) in focus for x in ast.walk(st.test))
+
+    cache = {}
+
+    def dec(n, env):
+        st = owner(n.ast)
+        if st is None:
+            return None
+        if id(st) not in cache:
+            if relevant(st):
+                cache[id(st)] = None
+            else:
+                leaves = bool(st.body) and isinstance(st.body[-1], (ast.Raise, ast.Return, ast.Continue, ast.Break))
+                cache[id(st)] = False if leaves or not st.orelse else True
+        return cache[id(st)]
+
+    return dec
+
+
+def outcome_rows(fv, raising_stmts=(), decide=None, caught: str = "CAUGHT", focus=None):
+    if focus is not None and decide is None:
+        decide = _focus_decider(fv, set(focus))
+    """One row per path of the function: the outcomes of its tests (each test resolved with the values its names held
+    when it was evaluated), the handlers entered, how the path ends and the resolved return value.  `raising_stmts`:
+    statements whose exceptional edges are followed."""
+    rows = []
+    rs = set(id(x) for x in raising_stmts)
+
+    def dec(n, env):
+        if decide is not None:
+            d = decide(n, env)
+            if d is not None:
+                return d
+        v = inline(n.ast, env)
+        if isinstance(v, (ast.List, ast.Tuple, ast.Set)):
+            return bool(v.elts)
+        if isinstance(v, ast.Dict):
+            return bool(v.keys)
+        if isinstance(v, ast.Constant):
+            return bool(v.value)
+        return None
+
+    for tr in fv.cfg.simulate(dec, follow_exc=(lambda n, env: n.kind == "stmt" and id(n.ast) in rs) if rs else None):
+        nodes = tr.nodes
+        sym = eager_env(tr, caught)
+        conds = list(sym["__tests__"])
+        last = tr.last_stmt()
+        ret = None
+        if tr.exit_kind == "return_exit" and last is not None and isinstance(last.ast, ast.Return) and last.ast.value is not None:
+            ret = sym["__sub__"](last.ast.value)
+        rows.append({"conds": conds, "handlers": [n.ast for n in nodes if n.kind == "handler"], "exit": tr.exit_kind, "ret": ret, "sym": sym, "trace": tr,
+                     "last": last.ast if last is not None else None})
+    return rows
+
+
+_OPP = {" is not ": " is ", " != ": " == ", " not in ": " in "}
+
+
+def truth(row, positive_text: str):
+    """'T' / 'F' for a test given in positive spelling (`a is b`), whichever spelling the code uses (`a is not b`, `not a is b`)."""
+    r = cond_of(row, positive_text)
+    if r is not None:
+        return r
+    for neg, pos in _OPP.items():
+        if pos in positive_text:
+            r = cond_of(row, positive_text.replace(pos, neg, 1))
+            if r is not None:
+                return "F" if r == "T" else "T"
+    r = cond_of(row, f"not {positive_text}")
+    if r is not None:
+        return "F" if r == "T" else "T"
+    return None
+
+
+def cond_of(row, text: str):
+    """Outcome ('T' / 'F') of the last test of the path whose resolved text equals `text` (spaces ignored), else None."""
+    t = text.replace(" ", "")
+    hit = [o for c, o in row["conds"] if c.replace(" ", "") == t]
+    return hit[-1] if hit else None
